@@ -171,10 +171,18 @@ func genCSSValue(r *fw.Rand) string {
 		if i > 0 && r.Chance(3, 4) {
 			b.WriteString(pick(r, []string{" ", " ", "\t", "\n", "", "/**/", ","}))
 		}
-		b.WriteString(pick(r, cssValues))
+		v := pick(r, cssValues)
+		// CSS function names are ASCII case-insensitive and may be written with escapes: url( in
+		// every spelling starts a url token for a browser.
+		if strings.Contains(v, "url(") && r.Chance(1, 3) {
+			v = strings.ReplaceAll(v, "url(", pick(r, urlSpellings))
+		}
+		b.WriteString(v)
 	}
 	return b.String()
 }
+
+var urlSpellings = []string{"URL(", "Url(", "uRl(", "urL(", "uRL(", "URl(", "u\\72l(", "\\55RL(", "UR\\4c (", "\\75 rl(", "u\\000052L("}
 
 // genCSS builds the text of a style attribute (before HTML attribute quoting).
 func genCSS(r *fw.Rand) string {
